@@ -66,6 +66,7 @@ func waveStops(c *rig.Ctx) {
 				}
 				return true
 			}
+			rig.SiblingRun(50) // another machine in the process stores to its own wave RAM meanwhile
 			if !check("first read") {
 				return
 			}
